@@ -67,7 +67,8 @@ class OutputStream:
         base_indent = self.options.get('output.baseIndent')
         newline = self.options.get('output.newline')
         line = self.line
-        self.push('%s%s' % (newline, base_indent))
+        # NB: no `%s` here: a `str`-based enum member given as option shows its name there
+        self.push(newline + base_indent)
         if self.line == line:
             # `output.newline` without actual line break still starts a new line
             self.line += 1
